@@ -152,6 +152,11 @@ def noAfn : List N → Bool
   | [] => true
   | n :: rest => noAfnN n && noAfn rest
 
+/-- a union qualifier with one index subscript -/
+def singleSubs : List SubI → Bool
+  | [.idx _] => true
+  | _ => false
+
 mutual
 /-- single-valued all the way down: the parameter chains of aggregates too -/
 def singleDeep : List N → Bool
@@ -160,7 +165,7 @@ def singleDeep : List N → Bool
 def singleDeepN : N → Bool
   | .afn _ _ param => singleDeep param
   | .root _ | .cur _ | .child _ _ | .ffn _ _ => true
-  | .union _ subs => singleNode (.union default subs)
+  | .union _ subs => singleSubs subs
   | .wild _ | .multi _ _ _ | .desc _ _ _ | .filter _ _ => false
 end
 
